@@ -59,6 +59,8 @@ func (c12) Gen(r *sim.Rand, tier string, run uint64) *sim.Scenario {
 		sc.Cfg["cbdis"] = int64(r.Intn(2))
 		if r.Chance(1, 6) {
 			sc.Cfg["cbzero"] = 1
+		} else if r.Chance(1, 6) {
+			sc.Cfg["cbnest"] = int64(sim.PickInt(r, 1, 1, 2, 100)) // budget of the nested call + 1
 		}
 		sc.Cfg["wdm"] = int64(r.Intn(2))
 		sc.Cfg["sink"] = int64(sim.PickInt(r, -1, -1, 0, 0, 1, 2, 3))
@@ -362,6 +364,8 @@ func c12sys(sc *sim.Scenario, env *sim.Env) *sim.Violation {
 		}
 	}
 	cbzero := sc.C("cbzero") != 0 && !again
+	cbnest := sc.C("cbnest") != 0 && !again
+	nestedWrong := false
 	onpc := map[uint32]func(){}
 	for a := range cbAddrs {
 		a := a
@@ -376,6 +380,15 @@ func c12sys(sc *sim.Scenario, env *sim.Env) *sim.Violation {
 				_ = s.CPU.DisassembleCurrentPC(oa[:0])
 			}
 			cbEvents = append(cbEvents, ev)
+			if cbnest {
+				// the host asks, from inside its hook, for a run to where the CPU already is: by
+				// the property that executes nothing, and it is no business of the run in progress
+				nested := false
+				sim.RecoverLib(func() { nested = s.RunUntil(s.GetPC(), uint64(sc.C("cbnest"))-1) })
+				if !nested {
+					nestedWrong = true
+				}
+			}
 			if cbzero {
 				// the host keeps a per-frame cycle counter in the exported total and restarts it
 				// here: RunUntil's budget counts the cycles *it* has consumed, whatever the
@@ -478,6 +491,12 @@ func c12sys(sc *sim.Scenario, env *sim.Env) *sim.Violation {
 	if (start == target || budget == 0) && regsA.AllCycles != 0 && !again {
 		return &sim.Violation{Oracle: "rununtil_executed_at_target_or_zero_budget", Step: -1,
 			Msg: fmt.Sprintf("start=%06x target=%06x budget=%d: RunUntil executed instructions (AllCycles=%d)", start, target, budget, regsA.AllCycles)}
+	}
+	if cbnest && len(cbEvents) > 0 {
+		st.Probe("hook_calls_rununtil_to_here")
+		if nestedWrong {
+			return &sim.Violation{Oracle: "rununtil_result", Step: -1, Msg: "a RunUntil to the address the CPU is at, called from a program-counter hook, did not return true"}
+		}
 	}
 	if cbzero && len(cbEvents) > 0 {
 		st.Probe("hook_restarts_cycle_total")
